@@ -50,3 +50,16 @@ class CFunction(object):
 def __elemref(base, offset):
     """&base[offset]: address of a byte inside a buffer - an abstract location (base, offset)"""
     return (base, offset)
+
+
+def __ptradd(p, k):
+    """pointer arithmetic on an array of structs: elements are consecutive references"""
+    return p
+
+
+def __ptrint(p):
+    return p
+
+
+def __newstruct(tname):
+    return None
